@@ -112,6 +112,60 @@ let do_pool pa sT aT s opsl =
     let verdict = pool_oracle ~pr:(not pa) sT aT ops toks in
     String.concat " " toks, (if hobs = obs then verdict else "REJECT literal free-list model (c15_hrun) differs from the list model")
 
+(* ---- the allocators inside std::list / std::vector ---- *)
+let stl_sizes (ops : (char * int * int) list) : int list =
+  let rec go sz = function
+    | [] -> []
+    | (k, a, _) :: r ->
+      let sz' = (match k with 'p' -> sz + 1 | 'q' -> if sz > 0 then sz - 1 else 0 | 'e' -> if a < sz then sz - 1 else sz
+                            | 'i' -> if a <= sz then sz + 1 else sz | 'c' -> 0 | _ -> sz) in
+      sz' :: go sz' r in
+  go 0 ops
+let parse_stl_op (t : string) : char * int * int =
+  let rest = String.sub t 1 (String.length t - 1) in
+  match String.split_on_char '.' rest with
+  | [""] -> (t.[0], 0, 0) | [a] -> (t.[0], int_of_string a, 0) | [a; b] -> (t.[0], int_of_string a, int_of_string b) | _ -> failwith "stlop"
+(* node allocations of the list as a pool history: every insertion allocates one node, every removal releases one *)
+let stl_pool_chunks g (ops : (char * int * int) list) : int =
+  let chunks_of_hist h = let _, st = c15_run g c15_client_empty h in List.length (c15_pool_destroy st.cl_pool) in
+  let rec mk n = if n <= 0 then [] else OpAlloc (n_of_int 1) :: mk (n - 1) in
+  let rec fr n = if n <= 0 then [] else OpFree O :: fr (n - 1) in
+  let rec go sz hist extra = function
+    | [] -> chunks_of_hist (List.rev hist) + extra
+    | (k, a, _) :: r ->
+      (match k with
+       | 'p' -> go (sz + 1) (OpAlloc (n_of_int 1) :: hist) extra r
+       | 'i' -> if a <= sz then go (sz + 1) (OpAlloc (n_of_int 1) :: hist) extra r else go sz hist extra r
+       | 'q' -> if sz > 0 then go (sz - 1) (OpFree O :: hist) extra r else go sz hist extra r
+       | 'e' -> if a < sz then go (sz - 1) (OpFree O :: hist) extra r else go sz hist extra r
+       | 'c' -> go 0 (List.rev_append (fr sz) hist) extra r
+       | 'y' -> go sz hist (extra + chunks_of_hist (mk sz)) r
+       | 'g' -> go sz hist (extra + chunks_of_hist (mk (max 1 sz))) r
+       | _ -> go sz hist extra r) in
+  go 0 [] 0 ops
+let stl_model what nodeS nodeA par opsl =
+  let ops = List.map parse_stl_op opsl in
+  let sizes = List.map (fun k -> "s" ^ string_of_int k) (stl_sizes ops) in
+  if what = "pa" then
+    (match c15_pa_geometry nodeS nodeA par with
+     | None -> ["NOGEOM"]
+     | Some g -> let k = stl_pool_chunks g ops in [geom_tok g] @ sizes @ [Printf.sprintf "D%d/%d" k k])
+  else sizes @ ["D0/0"]
+let stl_oracle what opsl (toks : string list) : string =
+  match List.find_opt has_bang toks, List.find_opt is_crash toks with
+  | Some t, _ -> "REJECT harness flag " ^ t
+  | None, Some t -> "REJECT trace incomplete: " ^ t
+  | None, None ->
+    let ops = List.map parse_stl_op opsl in
+    let body = if what = "pa" then (match toks with _ :: r -> r | [] -> []) else toks in
+    let exp = List.map (fun k -> "s" ^ string_of_int k) (stl_sizes ops) in
+    if List.length body <> List.length exp + 1 then "REJECT trace incomplete" else
+    if take (List.length exp) body <> exp then "REJECT container contents/sizes differ from the sequence semantics" else
+    let d = List.nth body (List.length exp) in
+    (match String.split_on_char '/' (String.sub d 1 (String.length d - 1)) with
+     | [a; b] when a = b -> "ok"
+     | _ -> "REJECT destroying the container does not return every chunk: " ^ d)
+
 (* ---- several allocator objects ---- *)
 let parse_mop (t : string) : c15_mop =
   let rest = String.sub t 1 (String.length t - 1) in
@@ -287,8 +341,8 @@ let api_line what sT =
     Printf.sprintf "max=%s eq=%s rebind=1" (dec_of_n c15_pa_max_size)
       (e true true ^ e true false ^ e true false ^ e false false ^ e true true ^ e true false ^ e false false ^ e false false)
   else
-    Printf.sprintf "max=%s eq=%s rebind=1" (dec_of_n (c15_max_size sT))
-      (b01 c15_stateless_equal ^ b01 (not c15_stateless_equal) ^ b01 c15_stateless_equal ^ b01 (not c15_stateless_equal))
+    Printf.sprintf "max=%s eq=%s rebind=1 sm=%s" (dec_of_n (c15_max_size sT))
+      (b01 c15_stateless_equal ^ b01 (not c15_stateless_equal) ^ b01 c15_stateless_equal ^ b01 (not c15_stateless_equal)) (b01 c15_stateless_equal)
 
 let () =
   let ic = open_in Sys.argv.(1) in
@@ -317,13 +371,15 @@ let () =
          | ("debug" | "dman" | "debugkeep"), Some l ->
            let mode = (match List.hd t with "dman" -> 1 | "debugkeep" -> 2 | _ -> 0) in
            dbg_oracle ~man:(mode = 1) (nn 1) (nn 2) (nn 3) (dbg_ops mode (drop 4 t)) (split l)
-         | "api", None -> api_line (List.nth t 1) (nn 2) ^ (if List.nth t 1 = "pa" then " dbgalign=" ^ dec_of_n c15_debug_alignment else "") ^ " | ok"
-         | "api", Some l -> if String.trim l = api_line (List.nth t 1) (nn 2) ^ (if List.nth t 1 = "pa" then " dbgalign=" ^ dec_of_n c15_debug_alignment else "") then "ok" else "REJECT allocator interface (max_size / operator== / rebind): " ^ l
+         | "api", None -> api_line (List.nth t 1) (nn 2) ^ (if List.nth t 1 = "pa" then " dbgalign=" ^ dec_of_n c15_debug_alignment ^ " mv=" ^ b01 (c15_pa_equal true false) else "") ^ " | ok"
+         | "api", Some l -> if String.trim l = api_line (List.nth t 1) (nn 2) ^ (if List.nth t 1 = "pa" then " dbgalign=" ^ dec_of_n c15_debug_alignment ^ " mv=" ^ b01 (c15_pa_equal true false) else "") then "ok" else "REJECT allocator interface (max_size / operator== / rebind): " ^ l
          | "isaligned", None ->
            let b x = if x then "1" else "0" in
            b (c15_isAligned (nn 1) (nn 2)) ^ " | " ^ (if c15_isAligned (nn 1) (nn 2) = c15_spec_isAligned (nn 1) (nn 2) then "ok" else "REJECT model differs from p mod align = 0")
          | "isaligned", Some l ->
            if String.trim l = (if c15_spec_isAligned (nn 1) (nn 2) then "1" else "0") then "ok" else "REJECT isAligned(" ^ List.nth t 1 ^ "," ^ List.nth t 2 ^ ") = " ^ l
+         | "stl", None -> let toks = stl_model (List.nth t 1) (nn 6) (nn 7) (if List.nth t 1 = "pa" then nn 5 else N0) (drop 8 t) in String.concat " " toks ^ " | " ^ (if toks = ["NOGEOM"] then "ok" else stl_oracle (List.nth t 1) (drop 8 t) toks)
+         | "stl", Some l -> stl_oracle (List.nth t 1) (drop 8 t) (split l)
          | "multi", None -> let m, o = do_multi (nn 1) (nn 2) (nn 3) (drop 4 t) in m ^ " | " ^ o
          | "multi", Some l -> if l = "NOGEOM" then "ok" else multi_oracle (nn 1) (nn 2) (List.map parse_mop (drop 4 t)) (split l)
          | "alignedbase", None ->
